@@ -1754,3 +1754,14 @@ def run(chk):
     chk.floor("F5-", 14)
     chk.floor("S-spectral-state", 10)
     chk.floor("S-operator-layout", 20)
+
+
+# --- engine I (pgverif/oneshot.py): one-shot iterators handed out by the grid accessors are walked once per creation and never memoised.
+# Run first so that its reports do not depend on the idiom recognition of the rules above.
+_run_before_engine_I = run
+
+
+def run(chk):  # noqa: F811
+    from ..oneshot import attach
+    attach(chk, [(U.POISSON, {"QuasiNeutralitySolver"})])
+    _run_before_engine_I(chk)
